@@ -156,6 +156,8 @@ def construct(d, rng, depth, ctx):
     elif k == 'foreign' and 'lang' in ctx:
         d.add('\\foreignlanguage{' + rng.choice(['german', 'english',
                                                  'russian']) + '}{')
+        if rng.random() < 0.3:
+            d.add(rng.choice(['  ', '\n ', ' \t', '   ']))
         sentence(d, rng, depth - 1, ctx)
         d.add('}')
     elif k == 'LTadd':
